@@ -212,8 +212,37 @@ fn div_lattice(rng: &mut Rng, tier: &str, emit: Emit) {
     }
 }
 
+
+/// words assembled from boundary half-words: exercises the widening multiply (`u128::wmul` is a separate half-word
+/// algorithm with three intermediate carries) and the high halves of products for every word type
+fn half_word_lattice(tier: &str, emit: Emit) {
+    let hv = |h: usize| -> Vec<u128> {
+        let m: u128 = if h == 64 { u64::MAX as u128 } else { (1u128 << h) - 1 };
+        let mut v = vec![0u128, 1, 2, 3, m, m - 1, m - 2, 1u128 << (h - 1), (1u128 << (h - 1)) - 1, (1u128 << (h - 1)) + 1];
+        if tier == "thorough" { v.extend([m >> 1, m ^ (m >> 1), 5, 0x5555_5555_5555_5555_5555_5555_5555_5555u128 & m, 0xAAAA_AAAA_AAAA_AAAA_AAAA_AAAA_AAAA_AAAAu128 & m]); }
+        v
+    };
+    for (tag, w) in [("F128x2", 128usize), ("F64x3", 64), ("F32x3", 32), ("F16x2", 16), ("F8x3", 8)] {
+        let ty = ty_of(tag);
+        let h = w / 2;
+        let vals = hv(h);
+        let n = ty.cap().unwrap();
+        let idx: Vec<usize> = if w == 128 || tier == "thorough" { (0..vals.len()).collect() } else { vec![0, 1, 3, 4, 5, 7] };
+        for &a in &idx { for &b in &idx { for &c in &idx { for &d in &idx {
+            let x: u128 = vals[a] | (vals[b] << h);
+            let y: u128 = vals[c] | (vals[d] << h);
+            // word 0 = x, remaining words all ones (so that the high half of every product matters)
+            let mk = |lo: u128| -> Vec<bool> { (0..n).map(|i| if i < w { (lo >> i) & 1 == 1 } else { true }).collect() };
+            let l = vec_token(&ty, &mk(x), 0, false);
+            let r = vec_token(&ty, &mk(y), 0, false);
+            emit(line("mul", &[&l, &r, "ar"]));
+        }}}}
+    }
+}
+
 fn gen_c01(rng: &mut Rng, tier: &str, emit: Emit) {
     carry_lattice(rng, tier, emit);
+    half_word_lattice(tier, emit);
     gen_binary(rng, tier, emit, &["add", "sub", "mul"], MAXD, 12);
     // carry / borrow ripple through all-ones and all-zero words; u128 half-word lattice for wmul
     let pats: [u128; 9] = [0, 1, 2, u64::MAX as u128, (u64::MAX as u128) + 1, u128::MAX, u128::MAX - 1, 1u128 << 127, (1u128 << 64) - 2];
@@ -368,6 +397,25 @@ fn gen_c03(rng: &mut Rng, tier: &str, emit: Emit) {
     }
 }
 
+fn long_ops(rng: &mut Rng, fam: &str, emit: Emit) {
+    use super::gen::{long_vec, LONG_LENS};
+    for ty in [ty_of("D"), ty_of("A")] {
+        for &len in LONG_LENS {
+            let v = long_vec(rng, &ty, len);
+            let wl = len - rng.below(100);
+            let w = long_vec(rng, &ty, wl);
+            match fam {
+                "C01" => { for op in ["add", "sub"] { emit(line(op, &[&v, &w, "ar"])); } if len <= 9000 { emit(line("mul", &[&v, &w, "ar"])); } }
+                "C04" => { for op in ["and", "or", "xor"] { emit(line(op, &[&v, &w, "ar"])); } emit(line("not", &[&v, "v"])); emit(line("not", &[&v, "r"])); }
+                "C05" => { for k in [1usize, 63, 64, 65, len / 2, len - 1] { for f in ["rv", "av"] { emit(line("shl", &[&v, &format!("u32:{:x}", k), f])); emit(line("shr", &[&v, &format!("u32:{:x}", k), f])); } } }
+                "C02" => { if len <= 2100 { let dv = long_vec(rng, &ty, len / 3);
+                    emit(line("div", &[&v, &dv, "rr"])); emit(line("rem", &[&v, "u64:de0b6b3a7640000", "rr"])); } }
+                _ => {}
+            }
+        }
+    }
+}
+
 pub fn generate(fam: &str, seed: u64, tier: &str, emit: Emit) {
     let mut rng = Rng::new(seed ^ fam.bytes().fold(7u64, |a, c| a.wrapping_mul(131).wrapping_add(c as u64)));
     let rng = &mut rng;
@@ -379,4 +427,5 @@ pub fn generate(fam: &str, seed: u64, tier: &str, emit: Emit) {
         "C05" => gen_c05(rng, tier, emit),
         _ => panic!("unknown family {fam}"),
     }
+    long_ops(rng, fam, emit);
 }
